@@ -425,6 +425,11 @@ def run(rep, tier, root=None):
             elif isinstance(it_node, ast.Name) and it_node.id == s[1] and b.is_zero():
                 rep.ok("Z5.allocation-coverage", "%s[%s]: every mode slot of numpy.empty() written" % (f.fq, kind),
                        "the loop iterates over the items of the allocated array itself and writes item k in iteration k")
+            elif isinstance(it_node, ast.Name) and isinstance(J, Rat) and isinstance(J.single_atom(), Sym) and it_node.id == J.single_atom().name \
+                    and b.is_zero() and isinstance(ext, Rat) and (same_value(ext, Rat.atom(Fn("len", (J,)))) or
+                                                                  same_value(ext, Interp(ix).shape_elem(J, 0)) or same_value(ext, Rat.atom(Fn("shape", (J, 0))))):
+                rep.ok("Z5.allocation-coverage", "%s[%s]: every mode slot of numpy.empty() written" % (f.fq, kind),
+                       "the loop enumerates the index list and writes slot k in iteration k; the array has len(list) slots")
             else:
                 rep.unknown("Z5.allocation-coverage", "%s[%s]" % (f.fq, kind), "allocation extent / loop range not recognised", f.where())
         rep.check(set(kinds) == {"list", "count"}, "Z5.dispatch", f.fq + ": list and count branch both call zernike_noll(index, N, rot)",
@@ -481,11 +486,13 @@ def run(rep, tier, root=None):
         def length_of(x):
             # zernikeArray(n, ...) with an integer count has n modes (Z5 count branch); a coefficient vector has len() items
             a_ = x.single_atom() if isinstance(x, Rat) else None
-            if isinstance(a_, Fn) and a_.name == "call:" + fq("zernikeArray") and a_.args and isinstance(a_.args[0], Rat) and \
-                    isinstance(a_.args[0].single_atom(), Fn) and a_.args[0].single_atom().name == "len":
-                return a_.args[0]
+            if isinstance(a_, Fn) and a_.name == "call:" + fq("zernikeArray") and a_.args and isinstance(a_.args[0], Rat):
+                n0 = a_.args[0].single_atom()
+                if (isinstance(n0, Fn) and n0.name in ("len", "shape")) or (isinstance(n0, Sym) and n0.name.startswith("shape(")):
+                    return a_.args[0]
             if isinstance(a_, Sym):
-                return Rat.atom(Fn("len", (x,)))
+                # len(x) and x.shape[0] have one normal form (the interpreter's shape_elem)
+                return Interp(ix).shape_elem(x, 0) if "array" in a_.flags else Rat.atom(Fn("len", (x,)))
             return None
         check_equal(rep, "Z6.linear-combination", f.fq + " == sum_z Zs[z]*zCoeffs[z], Zs = zernikeArray(len, size, norm, rot)",
                     canon_iteration_sums(got[0][1], length_of), want,
